@@ -1,7 +1,239 @@
-"""Verus route: mechanical extraction of real functions into a generated single file."""
-import os, re, json
+"""Verus route: mechanical extraction of real a10 functions/items into one generated file per unit.
+
+Template (verus/<unit>.rs.tpl) directives, each on its own line:
+
+  //@item <relfile> /<regex on the item's first line>/
+        copies the struct/enum/const/type item verbatim (attributes above it are dropped)
+  //@fn <relfile> /<regex on the fn signature line>/ [in=/<regex of an enclosing impl header>/] [ret=<name>]
+  //@spec
+        <requires / ensures / decreases lines, spliced between signature and body>
+  //@end
+        copies the fn: signature, then the spec, then the body — token for token, except for the fixed,
+        reported list of transformations in TRANSFORMS below.  `ret=r` names the return value
+        (`-> T` becomes `-> (r: T)`), which Verus needs to talk about the result.
+
+Anything else in the template (spec fns, proof fns, lemmas, View impls) is written by hand and is spec, not code.
+"""
+import json
+import os
+import re
+
 import vlib
 from vlib import Infra
 
+TRANSFORMS = [
+    "attributes directly above an extracted item/fn are dropped (#[derive], #[allow], #[doc], #[inline], #[repr] is kept)",
+    "visibility keywords pub / pub(crate) / pub(super) are dropped from extracted fns (items keep `pub` so specs may mention fields)",
+    "statements `log::<level>!(...);`, `asan::...;`, `msan::...;` are dropped (no effect on a10 state in the verified configuration)",
+    "`_` parameter patterns are renamed `_pN` (Verus rejects `_` parameters)",
+    "`const fn` -> `fn` (Verus does not accept const fn bodies with these features)",
+    "`-> T` -> `-> (r: T)` when ret= is given",
+    "`Self::CONST` / type paths are untouched; `crate::`-qualified paths must be resolvable in the template (items are extracted next to the fn)",
+]
+
+
+def _strip_vis(sig):
+    return re.sub(r"^(\s*)pub(\([a-z]+\))?\s+", r"\1", sig)
+
+
+def _drop_stmts(body):
+    out = []
+    lines = body.split("\n")
+    i = 0
+    dropped = 0
+    while i < len(lines):
+        l = lines[i]
+        if re.match(r"\s*(log::\w+!|asan::\w+|msan::\w+)\(", l):
+            # statement may span lines: consume until the line ending with ');'
+            j = i
+            while not lines[j].rstrip().endswith(");"):
+                j += 1
+                if j >= len(lines):
+                    raise Infra("unterminated log/asan statement in extracted body")
+            dropped += 1
+            i = j + 1
+            continue
+        out.append(l)
+        i += 1
+    return "\n".join(out), dropped
+
+
+def _rename_underscore_params(sig):
+    n = [0]
+
+    def rep(m):
+        n[0] += 1
+        return "%s_p%d:" % (m.group(1), n[0])
+
+    return re.sub(r"([(,]\s*)_\s*:", rep, sig)
+
+
+def extract_fn(crate, relfile, sig_regex, inside=None, ret=None):
+    text = open(os.path.join(crate, relfile)).read()
+    base = 0
+    region = text
+    if inside:
+        ms = list(re.finditer(inside, text, flags=re.M))
+        if len(ms) != 1:
+            raise Infra("lost anchor: impl /%s/ matches %d times in %s" % (inside, len(ms), relfile))
+        bo = text.index("{", ms[0].start())
+        en = vlib.match_brace(text, bo)
+        base = bo
+        region = text[bo:en]
+    st, bo, en = vlib.find_fn_span(region, sig_regex)
+    sig = region[st:bo].rstrip()
+    body = region[bo:en]
+    src_hash = vlib.sha(region[st:en])
+    sig = _strip_vis(sig)
+    sig = re.sub(r"\bconst fn\b", "fn", sig)
+    sig = re.sub(r"\bunsafe fn\b", "fn", sig) if False else sig
+    sig = _rename_underscore_params(sig)
+    if ret:
+        sig = re.sub(r"->\s*(.+)$", lambda m: "-> (%s: %s)" % (ret, m.group(1).strip()), sig, flags=re.S)
+    body2, dropped = _drop_stmts(body)
+    line0 = text.count("\n", 0, base + st) + 1
+    return sig, body2, {"file": relfile, "anchor": sig_regex, "line": line0, "source_sha256_16": src_hash,
+                        "extracted_sha256_16": vlib.sha(sig + body2), "dropped_statements": dropped}
+
+
+def extract_item(crate, relfile, regex):
+    text = open(os.path.join(crate, relfile)).read()
+    ms = list(re.finditer(regex, text, flags=re.M))
+    if len(ms) != 1:
+        raise Infra("lost anchor: item /%s/ matches %d times in %s" % (regex, len(ms), relfile))
+    st = text.rfind("\n", 0, ms[0].start()) + 1
+    # item ends at first ';' at depth 0 or at the matching brace
+    i = ms[0].start()
+    depth = 0
+    while True:
+        c = text[i]
+        if c in "([":
+            depth += 1
+        elif c in ")]":
+            depth -= 1
+        elif c == ";" and depth == 0:
+            en = i + 1
+            break
+        elif c == "{" and depth == 0:
+            en = vlib.match_brace(text, i)
+            break
+        i += 1
+    item = text[st:en]
+    # derives directly above the item are reduced to the ones Verus accepts (Copy, Clone)
+    above = text[:st].rstrip().split("\n")
+    keep = []
+    k = len(above) - 1
+    while k >= 0 and (above[k].strip().startswith("#[") or above[k].strip().startswith("///")):
+        md = re.match(r"\s*#\[derive\((.*)\)\]", above[k])
+        if md:
+            ds = [d.strip() for d in md.group(1).split(",")]
+            keep = [d for d in ds if d in ("Copy", "Clone")]
+        if above[k].strip().startswith("#[repr"):
+            item = above[k] + "\n" + item
+        k -= 1
+    if keep:
+        item = "#[derive(%s)]\n" % ", ".join(sorted(keep, reverse=True)) + item
+    item = re.sub(r"^(\s*)pub\([a-z]+\)\s+", r"\1pub ", item)
+    # fields: pub(crate)/pub(super) -> pub ; private fields stay private
+    item = re.sub(r"\bpub\((crate|super)\)\s+", "pub ", item)
+    return item, {"file": relfile, "anchor": regex, "line": text.count("\n", 0, st) + 1, "source_sha256_16": vlib.sha(text[st:en])}
+
+
+def generate(unit, crate, outdir):
+    tpl = open(os.path.join(vlib.VERUS_DIR, unit + ".rs.tpl")).read().split("\n")
+    out = []
+    extracted = []
+    i = 0
+    while i < len(tpl):
+        l = tpl[i]
+        m = re.match(r"\s*//@item (\S+) /(.+)/\s*$", l)
+        if m:
+            item, info = extract_item(crate, m.group(1), m.group(2))
+            out.append("// ---- extracted verbatim from %s:%d" % (info["file"], info["line"]))
+            out.append(item)
+            extracted.append(dict(info, kind="item"))
+            i += 1
+            continue
+        m = re.match(r"\s*//@fn (\S+) (.*)$", l)
+        if m:
+            rest = m.group(2)
+            opts = {}
+            mo = re.search(r'\s+in="([^"]*)"', rest)
+            if mo:
+                opts["in"] = mo.group(1)
+                rest = rest[:mo.start()] + rest[mo.end():]
+            mo = re.search(r"\s+ret=(\w+)", rest)
+            if mo:
+                opts["ret"] = mo.group(1)
+                rest = rest[:mo.start()] + rest[mo.end():]
+            rest = rest.strip()
+            if not (rest.startswith("/") and rest.endswith("/")):
+                raise Infra("bad //@fn directive: " + l)
+            m = (m.group(1), rest[1:-1])
+            inside = opts.get("in")
+            spec = []
+            i += 1
+            if i < len(tpl) and tpl[i].strip() == "//@spec":
+                i += 1
+                while tpl[i].strip() != "//@end":
+                    spec.append(tpl[i])
+                    i += 1
+                i += 1
+            sig, body, info = extract_fn(crate, m[0], m[1], inside, opts.get("ret"))
+            out.append("// ---- extracted from %s:%d (body sha %s)" % (info["file"], info["line"], info["source_sha256_16"]))
+            out.append(sig)
+            out.extend(spec)
+            out.append(body)
+            extracted.append(dict(info, kind="fn"))
+            continue
+        out.append(l)
+        i += 1
+    path = os.path.join(outdir, "verus_%s.rs" % unit)
+    open(path, "w").write("\n".join(out) + "\n")
+    return path, extracted
+
+
 def run_unit(unit, crate, obligations):
-    raise Infra("verus route not built yet")
+    outdir = os.path.dirname(crate)
+    path, extracted = generate(unit, crate, outdir)
+    j, stderr, wall = vlib.run_verus(path)
+    if os.environ.get("VERIF_KEEP_LOG"):
+        import shutil
+        shutil.copy(path, os.path.join(vlib.VERIF, "last-verus-%s.rs" % unit))
+    res = {}
+    if j is None:
+        for o in obligations:
+            res[o["id"]] = {"verdict": "unknown", "note": "verus produced no JSON: " + stderr[-300:], "wall_s": wall, "backend": "verus+z3"}
+        return res
+    vr = j.get("verification-results", {})
+    fb = {}
+    try:
+        for mt in j["times-ms"]["smt"]["smt-run-module-times"]:
+            for f in mt.get("function-breakdown", []):
+                fb[f["function"].split("::", 1)[1] if "::" in f["function"] else f["function"]] = f
+    except Exception:
+        pass
+    if vr.get("encountered-vir-error") or (not fb and not vr.get("success")):
+        # the generated file does not type-check / is outside Verus' subset: undecided, never an alarm
+        msg = [l for l in stderr.split("\n") if l.startswith("error")][:4]
+        for o in obligations:
+            res[o["id"]] = {"verdict": "unknown", "note": "verus could not process the extracted code: " + " | ".join(msg), "wall_s": wall, "backend": "verus+z3",
+                            "verus_output": stderr[-4000:]}
+        return res
+    for o in obligations:
+        want = o["verus_fns"]
+        missing = [f for f in want if f not in fb]
+        failed = [f for f in want if f in fb and not fb[f].get("success")]
+        t = sum(fb[f].get("time-micros", 0) for f in want if f in fb) / 1e6
+        r = {"wall_s": round(wall, 2), "solver_s": round(t, 4), "backend": "verus-0.2026.09.13+z3", "checks": len(want),
+             "covers_satisfied": 0, "covers_unsatisfied": 0, "extracted": [e for e in extracted], "note": ""}
+        if missing:
+            r.update({"verdict": "unknown", "note": "vacuity guard: expected function(s) not reported by verus: %s" % ", ".join(missing)})
+        elif failed:
+            # pick the error text for these functions
+            r.update({"verdict": "failed", "failed_checks": [{"description": "verus: obligation of `%s` not discharged" % f, "function": f, "location": path} for f in failed],
+                      "verus_output": stderr[-6000:]})
+        else:
+            r["verdict"] = "proved"
+        res[o["id"]] = r
+    return res
